@@ -255,7 +255,7 @@ inline Plan g_current_plan;
 inline char g_crash_path[512];
 inline char g_crash_buf[1 << 20];
 inline size_t g_crash_len = 0;
-inline unsigned g_run_alarm_s = 15; // watchdog per run (SIGALRM -> treated like a crash: "hang")
+inline unsigned g_run_alarm_s = 30; // watchdog per run (SIGALRM -> treated like a crash: "hang")
 
 // ---------------------------------------------------------------- json (tiny)
 inline std::string jesc(const std::string& s)
